@@ -487,3 +487,27 @@ reg("C15", "exploration",
     "at 10x ccd_iterations is skipped and counted (<2%). Four open known findings (coincident centres, boundary-simplex EPA start, "
     "cylinder cap on parallel face, rare EPA face violating its own stopping rule - rate-guarded).",
     "certified convex-optimisation reference with primal/dual bounds over the real narrow phase")
+
+reg("C35", "exploration",
+    "Generated bodies over all primitive types (solid and shell), poses, orientation spellings, density/mass, groups and the compiler's "
+    "inertia rules (inertiafromgeom, inertiagrouprange, explicit inertial incl. fullinertia, boundmass/boundinertia, balanceinertia, "
+    "settotalmass), plus tessellated inline meshes (exact, legacy, shell), are compiled by the real compiler and body_mass, body_ipos and "
+    "the reconstructed tensor R(iquat) diag(inertia) R' are compared with an independent analytic model (closed forms, quadrature for the "
+    "ellipsoid shell, exact polyhedron integrals of the float32 vertices, parallel-axis composition); mesh results must converge to the "
+    "primitive at ~4x per resolution doubling; invalid inertials (A+B<C, indefinite fullinertia, negative mass) must be rejected.",
+    "Tensor tolerance 5e-6 relative (2e-5 meshes) = the compiler's Jacobi stopping rule. The convex-hull inertia path is out of reach "
+    "(qhull absent). Two open known findings (ellipsoid shell inertia not a uniform surface density; absolute eigen-solver threshold on small meshes).",
+    "analytic reference model + exact polyhedron integrals + convergence-rate test on the real compiler")
+
+reg("C36", "exploration",
+    "Metamorphic XML rewrites executed on the real parser/compiler: orientation spellings (5), eulerseq (intrinsic/extrinsic/mixed), "
+    "degree<->radian, default-class chains with decoys, frames (plain, nested), replicate vs unrolled, mjs_attach vs inline, fusestatic, "
+    "discardvisual. Each pair is compiled both ways and compared on compiled arrays matched by object name (quaternions up to sign, inertia "
+    "as a tensor), on the names that tendon-wrap/transmission/sensor ids resolve to, and on 200-step world poses and named sensor data from "
+    "identical named velocities and controls. mj_setConst clause: masses, inertias, positions, gears and tendon coefficients are edited at run "
+    "time, mj_setConst is called and the result is compared with recompiling the equally edited saved XML, plus an independent sum-of-masses "
+    "check of body_subtreemass. A rewrite kind with zero applications makes the run inconclusive.",
+    "Trajectory tolerance is scaled by the system's own amplification (twin with initial velocity scaled by 1+1e-13), so chaotic models "
+    "pass almost vacuously; trajectories run with constraints disabled. Open known findings: fusestatic stale site ids, fusestatic "
+    "camera/light pose reset, fusestatic with differing gravcomp, replicate with multi-axis euler.",
+    "metamorphic rewrites + name-matched twin compilation + perturbation-normalised trajectory comparison")
